@@ -305,14 +305,14 @@ Proof.
   constructor; auto; intros t Ht; rewrite (init_lof t Ht).
   - intros p. reflexivity.
   - constructor.
-  - intros m. cbn. now rewrite !dget_nil.
+  - intros m. cbn [free total used empty_ledger]. now rewrite !dget_nil.
 Qed.
 Lemma init_wgood : wgood init_state.
 Proof.
   constructor.
-  - intros t Ht m k. rewrite (init_lof t Ht). cbn. rewrite dval_nil. lia.
+  - intros t Ht m k. rewrite (init_lof t Ht). cbn [total empty_ledger]. rewrite dval_nil. lia.
   - intros p da b H. discriminate.
-  - intros t Ht m k. rewrite (init_lof t Ht). cbn. now rewrite dval_nil.
+  - intros t Ht m k. rewrite (init_lof t Ht). cbn [used aset empty_ledger]. now rewrite dval_nil.
 Qed.
 
 (* ------------------------------------------------------------------ well-formed outputs of allocate *)
@@ -337,4 +337,84 @@ Proof.
     apply Z.leb_le in H1. apply Z.mul_nonneg_nonneg; auto.
     apply (lg_tot _ (G 0%nat)).
   - rewrite (Gn Hne). exact H2.
+Qed.
+
+(* ------------------------------------------------------------------ every operation preserves the invariants *)
+Lemma unhealthy_nonneg l :
+  forallb (fun i => res_nonneg (if di_health i then di_res i else rempty)) (map unhealthy l) = true.
+Proof. apply forallb_forall. intros i Hi. apply in_map_iff in Hi as [j [<- _]]. reflexivity. Qed.
+Lemma healthy_nonneg inv :
+  forallb (fun i => res_nonneg (di_res i)) inv = true ->
+  forallb (fun i => res_nonneg (if di_health i then di_res i else rempty)) inv = true.
+Proof.
+  rewrite !forallb_forall. intros H i Hi. specialize (H i Hi). destruct (di_health i); auto.
+Qed.
+
+Lemma dup_add_same s p da b t : ugood s -> lookup p (envrec s) = Some (da, b) -> (t < 3)%nat ->
+  ledger_of (cache_update true (ledgers s) p da) t = lof s t.
+Proof.
+  intros U L Ht. rewrite ledger_of_cache_update by auto. eapply cons_dupadd; eauto. now apply U.
+Qed.
+Lemma dup_rm_same s p da t : ugood s -> lookup p (envrec s) = None -> (t < 3)%nat ->
+  ledger_of (cache_update false (ledgers s) p da) t = lof s t.
+Proof.
+  intros U L Ht. rewrite ledger_of_cache_update by auto. eapply cons_duprm; eauto. now apply U.
+Qed.
+
+Lemma step_good s o :
+  ugood s -> ugood (fst (step s o)) /\ (wgood s -> op_wf o = true -> wgood (fst (step s o))).
+Proof.
+  intros U. destruct o as [inv|p rq|p|p|p|p al| |p al|p]; cbn [step].
+  - (* refresh *) cbn [fst]. split.
+    + eapply ugood_refresh; eauto; reflexivity.
+    + intros W Hwf. eapply wgood_refresh; eauto; try reflexivity. now apply healthy_nonneg.
+  - (* schedule *)
+    destruct (lookup p (envrec s)) as [x|] eqn:L; [cbn [fst]; auto|].
+    destruct (allocate (ledgers s) (infos s) rq) as [|code|da] eqn:A; cbn [fst]; auto.
+    split.
+    + eapply ugood_add; eauto; reflexivity.
+    + intros W Hwf. eapply wgood_add; eauto; try reflexivity.
+      eapply allocate_done_wf; eauto. intros t. now apply good_lgood.
+  - (* unreserve *)
+    destruct (lookup p (envrec s)) as [[da [|]]|] eqn:L; cbn [fst]; auto. split.
+    + eapply ugood_rm; eauto; reflexivity.
+    + intros W _. eapply wgood_rm; eauto; reflexivity.
+  - (* pod add *)
+    destruct (lookup p (envrec s)) as [[da b]|] eqn:L; cbn [fst]; auto. split.
+    + apply (ugood_ext s); auto; try reflexivity.
+      intros t Ht. unfold lof at 1. cbn [ledgers]. eapply dup_add_same; eauto.
+    + intros W _. apply (wgood_ext s); auto; try reflexivity.
+      intros t Ht. unfold lof at 1. cbn [ledgers]. eapply dup_add_same; eauto.
+  - (* pod delete *)
+    destruct (lookup p (envrec s)) as [[da b]|] eqn:L; cbn [fst].
+    + split; [eapply ugood_rm; eauto; reflexivity|]. intros W _. eapply wgood_rm; eauto; reflexivity.
+    + split.
+      * apply (ugood_ext s); auto; try reflexivity.
+        intros t Ht. unfold lof at 1. cbn [ledgers]. eapply dup_rm_same; eauto.
+      * intros W _. apply (wgood_ext s); auto; try reflexivity.
+        intros t Ht. unfold lof at 1. cbn [ledgers]. eapply dup_rm_same; eauto.
+  - (* foreign add *)
+    destruct (lookup p (envrec s)) as [x|] eqn:L; cbn [fst]; auto. split.
+    + eapply ugood_add; eauto; reflexivity.
+    + intros W Hwf. eapply wgood_add; eauto; reflexivity.
+  - (* device delete *) cbn [fst]. split.
+    + eapply ugood_refresh; eauto; reflexivity.
+    + intros W _. eapply wgood_refresh; eauto; try reflexivity. apply unhealthy_nonneg.
+  - (* pod update *)
+    destruct (lookup p (envrec s)) as [[old b]|] eqn:L; cbn [fst]; auto.
+    set (s1 := mkState (cache_update false (ledgers s) p old) (infos s) (remove_key p (envrec s)) (envlast s)).
+    assert (U1 : ugood s1) by (eapply ugood_rm; eauto; reflexivity).
+    assert (L1 : lookup p (envrec s1) = None).
+    { unfold s1. cbn [envrec]. rewrite lookup_remove_key. now rewrite Z.eqb_refl. }
+    assert (Er : set_key p (group_allocs al, false) (envrec s)
+                 = set_key p (group_allocs al, false) (envrec s1)).
+    { unfold s1, set_key. cbn [envrec]. now rewrite remove_key_idem. }
+    split.
+    + eapply (ugood_add s1); eauto; cbn [ledgers envrec]; auto.
+    + intros W Hwf. assert (W1 : wgood s1) by (apply (wgood_rm s s1 p old b); auto).
+      apply (wgood_add s1 _ p (group_allocs al) false); auto.
+  - (* terminated *)
+    destruct (lookup p (envrec s)) as [[da b]|] eqn:L; cbn [fst]; auto. split.
+    + eapply ugood_rm; eauto; reflexivity.
+    + intros W _. eapply wgood_rm; eauto; reflexivity.
 Qed.
